@@ -393,11 +393,6 @@ impl Property for C05 {
         let e: Expect = serde_json::from_value(scn.expect.clone()).expect("c05 expect");
         Box::new(SelMonitor::new(e))
     }
-    fn pinned(&self) -> Vec<super::Pinned> {
-        // a minimised replay (explicit decision list) of the stale-answer race, committed under /verif/pinned
-        let Ok(f) = serde_json::from_str::<super::ReplayFile>(include_str!("../../../pinned/C05_stale_await_answer.json")) else { return vec![] };
-        vec![super::Pinned { key: "C05/priority/stale-await-answer-of-earlier-select", what: "stale await answer of an earlier select opens a later select early", scenario: f.scenario, spec: f.spec }]
-    }
     fn judge(&self, _scn: &Scenario, _refdata: Option<&RefData>, _r: &RunResult) -> Vec<Violation> {
         Vec::new()
     }
